@@ -1053,7 +1053,34 @@ def r01_6(ctx: Ctx):
     defs = local_defs(f)
     t = canon(x, defs)
     ok = t.endswith(".best_individual.genome")
-    return [ctx.ob("R01.6", f, x, status=OK if ok else VIOLATION, detail="x = genome of the tree's best individual (a recorded, box-closed individual)" if ok else f"minimize() returns x = `{norm(x)}`")]
+    obs = [ctx.ob("R01.6", f, x, status=OK if ok else VIOLATION, detail="x = genome of the tree's best individual (a recorded, box-closed individual)" if ok else f"minimize() returns x = `{norm(x)}`")]
+    # the box the run works in is the box the caller declared: `bounds` is at most converted to an array on its way to the problem
+    bp = "bounds"
+    if bp in f.params():
+        CONV = ("np.array", "np.asarray", "numpy.array", "numpy.asarray", "np.asanyarray", "np.ascontiguousarray", "list", "tuple")
+        bad = und = None
+        for n in body_walk(f.node):
+            if isinstance(n, (ast.Assign, ast.AnnAssign, ast.AugAssign)) and getattr(n, "value", None) is not None:
+                tg = n.targets if isinstance(n, ast.Assign) else [n.target]
+                if not any(isinstance(t_, ast.Name) and t_.id == bp for t_ in tg):
+                    continue
+                v = n.value
+                while isinstance(v, ast.Call) and norm(v.func) in CONV and v.args:
+                    v = v.args[0]
+                if isinstance(v, ast.Name) and v.id == bp and not isinstance(n, ast.AugAssign):
+                    continue
+                reorders = isinstance(n, ast.AugAssign) or any(isinstance(c, ast.Call) and norm(c.func).split(".")[-1] in ("sort", "sorted", "clip", "abs", "flip", "roll", "maximum", "minimum", "round", "floor", "ceil") for c in ast.walk(n.value)) or any(isinstance(c, ast.BinOp) for c in ast.walk(n.value))
+                if reorders:
+                    bad = bad or n
+                else:
+                    und = und or n
+        if bad is not None:
+            obs.append(ctx.ob("R01.6", f, bad, status=VIOLATION, detail=f"minimize() rewrites the caller's box before the run (`{norm(bad)[:80]}`): the search then works in - and returns points of - a box other than the declared one (e.g. a sort along axis 0 permutes the lower bounds among the coordinates)", construct="declared-box"))
+        elif und is not None:
+            obs.append(ctx.ob("R01.6", f, und, status=INCONCLUSIVE, detail=f"minimize() rebinds `bounds` (`{norm(und)[:80]}`)", construct="declared-box"))
+        else:
+            obs.append(ctx.ob("R01.6", f, f.node, detail="minimize() hands the declared bounds on unchanged (array conversion only)", construct="declared-box"))
+    return obs
 
 
 # ---------------------------------------------------------------- R01.7 symbolic intervals for the repair function
